@@ -43,7 +43,7 @@ CONSTANTS MaxR,        \* rounds 1..MaxR
           QKinds,      \* vote kinds for which the environment may present a quorum
           MaxQ,        \* at most MaxQ quorums are presented per visit of a (round, index)
           Repair,      \* subset of {"certReload", "replayMoves", "noBackward"}; {} = as coded
-          Mode,        \* "M": exhaustive check with a guessed target; "G": behaviour generation
+          Mode,        \* "M": exhaustive check with a guessed target; "G": behaviour generation; "GV": one behaviour per state
           MaxOps,      \* mode G: length of the generated behaviours
           Weaken       \* TRUE: the invariants tolerate the classes listed as known findings
 
@@ -171,8 +171,10 @@ DiskAfter(disk, o) == IF o = <<>> THEN disk
                       ELSE DiskAfter(IF Head(o).t = "W" THEN [disk EXCEPT ![Head(o).slot] = <<Head(o).r, Head(o).i>>] ELSE disk, Tail(o))
 Num(o, t) == Cardinality({ n \in DOMAIN o : o[n].t = t })
 TgtBlocks(o) == { o[n].b : n \in { m \in DOMAIN o : o[m].t = "P" /\ o[m].k = tgt.k /\ o[m].r = tgt.r /\ o[m].i = tgt.i } }
-\* a crash inside a run is of interest right after a write or right after a post
-Cuts(o) == { p \in 1..(Len(o) - 1) : o[p].t \in {"W", "P"} }
+\* a crash inside a run is of interest right after a write or right after a post -- and right BEFORE the first write
+\* (p = 0): for the design that is the same as a crash before the event, on the real code it is the crash point
+\* "the process dies when it is about to write the first record" (nothing may have left the node by then)
+Cuts(o) == { p \in 0..(Len(o) - 1) : IF p = 0 THEN o[1].t = "W" ELSE o[p].t \in {"W", "P"} }
 Dead(disk) == Fresh(disk)
 
 Tick(recs) == /\ (Mode = "G" => Len(hist) < MaxOps)
@@ -278,4 +280,9 @@ DiskSane == \A f \in DOMAIN s.disk : s.disk[f] = None \/ (s.disk[f][1] \in 1..Ma
 
 (***************************** generation *****************************)
 Leaf == (Mode = "G" /\ Len(hist) >= MaxOps) => PrintT("@@J " \o ToJson([kind |-> "B", h |-> hist]))
+\* Mode "GV": breadth-first search over the VIEW (states, not behaviours, are distinct); used as an INVARIANT, which TLC
+\* evaluates once per distinct state: one (shortest) behaviour into every distinct state in which the restarted node has
+\* just processed an event that can make it vote -- every reachable combination of disk records and restarted memory
+LeafV == (Mode = "GV" /\ up /\ crashes >= 1 /\ hist[Len(hist)].op \in {"Ctx", "Quorum"} /\ hist[Len(hist)].cw = -1)
+            => PrintT("@@J " \o ToJson([kind |-> "B", h |-> hist]))
 =============================================================================
